@@ -158,7 +158,6 @@ def check_order(ctx, prog, f, what=""):
     return n
 
 
-@shape_rule
 def r2_order(ctx):
     prog = ctx.prog
     total = 0
@@ -205,6 +204,15 @@ def r2_order(ctx):
         parts = OrderPipe(f.node)._flatten_add(r) if isinstance(r, ast.BinOp) else []
         if len(parts) == 3:
             pre, mid, suf = [OrderPipe._strip(p) for p in parts]
+
+            def through(x):
+                # a single-assignment temporary (higher = tuple(ranking[:i])) is read through
+                if isinstance(x, ast.Name):
+                    dv = astx.unique_def(f.node, x.id)
+                    if dv is not None:
+                        return OrderPipe._strip(dv)
+                return x
+            pre, mid, suf = through(pre), through(mid), through(suf)
             loops = [l for l in astx.enclosing_loops(c, astx.parents(f.node), f.node) if isinstance(l, ast.For)]
             lp = loops[-1] if loops else None
             if lp is not None and isinstance(lp.target, ast.Tuple) and astx.call_name(lp.iter) == "enumerate":
@@ -278,10 +286,13 @@ def weight_class(prog, f, c: ast.Call):
         return "PERM-SHARE", k
     if re.fullmatch(r"sum\(\((_b0)\.weight for _b0 in \w+\)\)", k):
         return "SUM", k
+    from vk import listform
+    sm = listform.sum_of(f.node, w)
+    if sm is not None and not sm.conditional and astx.u(sm.elt) == f"{sm.var}.weight" and isinstance(sm.iter, ast.Name) and sm.iter.id in f.params:
+        return "SUM", f"sum({sm.var}.weight for {sm.var} in {astx.u(sm.iter)})"
     return "OTHER", k
 
 
-@shape_rule
 def r3_weight_provenance(ctx):
     prog = ctx.prog
     expect = {"remove_cand": {"COPY", "ZERO", "DEFAULT"}, "add_missing_cands": {"COPY", "DEFAULT"},
@@ -326,12 +337,16 @@ def r3_weight_provenance(ctx):
                   f"weight share `{k}` is not weight / factorial(len(s)) over itertools.permutations(s) of the same position")
     # resolve_profile_ties expands every ballot
     f = prog.find_func("resolve_profile_ties")
-    comps = [n for n in astx.walk_own(f.node) if isinstance(n, astx.LCOMP) and len(n.generators) == 2]
+    from vk import listform
+    comps = []
     good = False
-    if comps:
-        g0, g1 = comps[0].generators
-        good = astx.u(g0.iter).endswith(".ballots") and astx.call_name(g1.iter) == "expand_tied_ballot" and astx.is_name(g1.iter.args[0], g0.target.id) \
-            and astx.is_name(comps[0].elt, g1.target.id) and not g0.ifs and not g1.ifs
+    pc = [c for c in astx.calls_in(f.node, "PreferenceProfile") if any(k.arg == "ballots" for k in c.keywords)]
+    if pc:
+        bl = listform.build_of(f.node, next(k.value for k in pc[0].keywords if k.arg == "ballots"))
+        if bl is not None:
+            comps = [bl.node]
+            good = bl.kind == "flatmap" and not bl.conditional and astx.u(bl.iter).endswith(".ballots") and astx.call_name(bl.elt) == "expand_tied_ballot" \
+                and len(bl.elt.args) == 1 and astx.u(bl.elt.args[0]) == bl.var
     ctx.check(good, f, comps[0] if comps else f.node, "resolve_profile_ties = all expansions of all ballots", "", "not every ballot's expansion is collected")
 
 
@@ -420,7 +435,6 @@ def r5_exact(ctx):
                 ctx.violated(f, n, f"{f.name}: int/int true division", f"`{astx.u(n)[:60]}` divides {l} by {r}: a binary float in an exact-arithmetic utility")
 
 
-@shape_rule
 def r6_group_and_merge(ctx):
     prog = ctx.prog
     f = prog.find_func("merge_ballots")
@@ -428,8 +442,11 @@ def r6_group_and_merge(ctx):
     defs = astx.single_assignments(f.node, names_only=True, text=False)
     rets = [n for n in astx.walk_own(f.node) if isinstance(n, ast.Return)]
     kw = {k.arg: astx.u(k.value) for k in rets[0].value.keywords} if rets and isinstance(rets[0].value, ast.Call) else {}
-    good = astx.u(defs.get("ranking")) == f"{bl}[0].ranking" and kw.get("ranking") == "ranking" and kw.get("weight") in ("Fraction(weight)", "weight") \
-        and astx.u(defs.get("weight")) == astx.A(f"sum((b.weight for b in {bl}))") and kw.get("voter_set") == "voter_set"
+    from vk import listform
+    wk = next((k.value for k in rets[0].value.keywords if k.arg == "weight"), None) if rets and isinstance(rets[0].value, ast.Call) else None
+    sm = listform.sum_of(f.node, wk) if wk is not None else None
+    oksum = sm is not None and not sm.conditional and astx.u(sm.elt) == f"{sm.var}.weight" and astx.u(sm.iter) == bl
+    good = astx.u(defs.get("ranking")) == f"{bl}[0].ranking" and kw.get("ranking") == "ranking" and oksum and kw.get("voter_set") == "voter_set"
     ctx.check(good, f, rets[0] if rets else f.node, "merge_ballots: one ballot with the shared ranking, the summed weight and the united voter sets", str(kw), f"merge_ballots returns Ballot({kw})")
     vs = [n for n in astx.walk_own(f.node) if isinstance(n, ast.Call) and astx.u(n.func) == "reduce"]
     ctx.check(len(vs) == 1 and "union" in astx.u(vs[0].args[0]) and astx.u(vs[0].args[1]) == "voters_to_merge" and
